@@ -378,11 +378,12 @@ def _scan_path(c):
 
 
 class Fn:
-    __slots__ = ('name', 'params', 'ret_ty', 'locals', 'blocks', 'raw', 'kind', 'fingerprint', 'line')
+    __slots__ = ('name', 'params', 'ret_ty', 'locals', 'blocks', 'raw', 'kind', 'fingerprint', 'line', 'debug')
 
     def __init__(self):
         self.locals = {}
         self.blocks = {}
+        self.debug = {}     # source variable name -> local (from `debug x => _N;`)
 
 
 _term_call_re = re.compile(r'^(.*?) -> (\[return: bb(\d+), unwind[^\]]*\]|unwind [a-z() ]+|bb\d+);$')
@@ -662,6 +663,10 @@ class Mir:
                 m = _let_re.match(ln)
                 if m:
                     fn.locals[int(m.group(2))] = m.group(3)
+                else:
+                    m = re.match(r'^\s+debug ([A-Za-z_][A-Za-z0-9_]*) => _(\d+);$', ln)
+                    if m:
+                        fn.debug.setdefault(m.group(1), int(m.group(2)))
                 i += 1
                 continue
             if ln == '    }':
